@@ -393,11 +393,18 @@ func (rw *rewriter) post(c *astutil.Cursor) bool {
 		if cc, ok := c.Parent().(*ast.CommClause); ok && cc.Comm == ast.Stmt(n) {
 			return true
 		}
+		// a send panics when the channel is (or gets) closed: the baton protocol must be completed on
+		// that path too, or a recovered panic would leave the task running outside the scheduler
 		t := rw.tmp("t")
 		c.Replace(&ast.BlockStmt{List: []ast.Stmt{
 			define(t, rw.simCall("YieldChan", rw.site("send"))),
-			n,
-			&ast.ExprStmt{X: rw.simCall("Resume", t)},
+			&ast.ExprStmt{X: &ast.CallExpr{Fun: &ast.FuncLit{
+				Type: &ast.FuncType{Params: &ast.FieldList{}},
+				Body: &ast.BlockStmt{List: []ast.Stmt{
+					&ast.DeferStmt{Call: rw.simCall("Resume", t)},
+					n,
+				}},
+			}}},
 		}})
 
 	case *ast.UnaryExpr:
@@ -793,6 +800,13 @@ func (rw *rewriter) selectStmt(sel *ast.SelectStmt) ast.Stmt {
 		define(idx, &ast.UnaryExpr{Op: token.SUB, X: intLit(1)}),
 		define(tok, rw.simCall("YieldChan", site)),
 	)
+	hasSend := false
+	for _, ci := range cases {
+		if ci.val != nil {
+			hasSend = true
+		}
+	}
+	opsFrom := len(stmts)
 	if n > 0 {
 		// poll phase
 		k := rw.tmp("k")
@@ -829,7 +843,16 @@ func (rw *rewriter) selectStmt(sel *ast.SelectStmt) ast.Stmt {
 			Body: &ast.BlockStmt{List: []ast.Stmt{blocking}},
 		})
 	}
-	stmts = append(stmts, &ast.ExprStmt{X: rw.simCall("Resume", tok)})
+	if hasSend {
+		// a send case panics when its channel is closed: complete the baton protocol on that path too
+		ops := append([]ast.Stmt{&ast.DeferStmt{Call: rw.simCall("Resume", tok)}}, stmts[opsFrom:]...)
+		stmts = append(stmts[:opsFrom:opsFrom], &ast.ExprStmt{X: &ast.CallExpr{Fun: &ast.FuncLit{
+			Type: &ast.FuncType{Params: &ast.FieldList{}},
+			Body: &ast.BlockStmt{List: ops},
+		}}})
+	} else {
+		stmts = append(stmts, &ast.ExprStmt{X: rw.simCall("Resume", tok)})
+	}
 	// bodies
 	var clauses []ast.Stmt
 	for i, ci := range cases {
